@@ -278,6 +278,23 @@ impl Check for C03 {
             (cf.pick(&self.cases).clone(), None, 1 + (seed >> 8))
         };
         let Some((f, muts)) = self.frame_for(&case, shape, master) else {
+            // the model peer cannot encode this message (a built-in it does not know): its opcode is still defined and a
+            // hostile peer can still send it, so it gets bodies of arbitrary bytes and lengths
+            let opcode = model_for(&self.ctx, &case).message(&case.name).and_then(|c| c.opcode);
+            if let (None, Some(op)) = (case.login, opcode) {
+                let n = match slot {
+                    Some(s) => [0usize, 1, 3, 4, 5, 8, 9, 12, 16, 20, 33, 64, 200, 1000][(s % 14) as usize],
+                    None => fr.below(300) as usize,
+                };
+                let body: Vec<u8> = (0..n).map(|k| if slot.map(|s| s % 3 == 0).unwrap_or(false) { 0 } else { fr.below(256) as u8 + (k as u8 & 0) }).collect();
+                let mut faulty = world_header(case.exp, case.dir, op as u32, body.len());
+                faulty.extend_from_slice(&body);
+                let total = faulty.len() + 200;
+                return json!({"label": case.label(), "case": case_json(&case), "fault_kind": "T9", "fault": format!("unmodelled message: {} arbitrary body bytes", n), "enumerated": slot.is_some(),
+                    "pre": [], "faulty": bytes_to_json(&faulty), "post": Value::Null, "entry": if i % 2 == 0 { "enum".to_string() } else { format!("expect:{}", case.name) }, "end_error": "",
+                    "sched_async": sched_json(&Schedule::random(&mut sr, total, false)),
+                    "sched_sync": sched_json(&Schedule::random(&mut sr, total, true))});
+            }
             return json!({"label": case.label(), "case": case_json(&case), "skip": "unmodelled"});
         };
         let world = case.login.is_none();
